@@ -569,6 +569,10 @@ func (a *Async) byz() {
 	if idx < 0 {
 		return
 	}
+	if idx == refPrimary(h, v, len(w.Cfg.Validators(h))) && h == t.D.BlockIndex && v == t.D.ViewNumber && !t.D.RequestSentOrReceived() && !t.D.BlockSent() &&
+		a.pct("replay", 30) && a.replayRecovery(j, idx, h, v, t) {
+		return
+	}
 	if idx == refPrimary(h, v, len(w.Cfg.Validators(h))) && h == t.D.BlockIndex && v == t.D.ViewNumber && a.pct("equivocate", 35) {
 		a.equivocate(j, idx, h, v, honest)
 		return
@@ -650,6 +654,46 @@ func (a *Async) equivocate(j, idx int, h uint32, v byte, honest []*Node) {
 			follow(pb, n)
 		}
 	}
+}
+
+// replayRecovery: the Byzantine primary of (h,v) sends a node that holds no proposal yet one recovery message made of
+// another proposal of its own for (h,v) and the honest validators' genuine commits of that view (signed for whatever
+// they committed to), followed by its own valid commit for that proposal.  Harmless as long as every commit is
+// checked against the proposal it arrives with.
+func (a *Async) replayRecovery(j, idx int, h uint32, v byte, t *Node) bool {
+	w := a.W
+	var commits []Payload
+	seen := map[uint16]bool{}
+	for _, p := range w.Sent {
+		if p.Ht == h && p.V == v && p.T == dbft.CommitType && !seen[p.Idx] {
+			seen[p.Idx] = true
+			commits = append(commits, p)
+		}
+	}
+	if len(commits) == 0 {
+		return false
+	}
+	var hs []vt.H
+	if c := a.proposalsAt(h, int(v)); len(c) > 0 && a.pct("replaysametx", 50) {
+		hs = append(hs, c[a.r("prop", len(c))].Body.(*vt.PrepareRequest).Hashes...) // differs in the nonce only
+	}
+	pb := vt.New(dbft.PrepareRequestType, h, v, uint16(idx), j, &vt.PrepareRequest{Ts: t.TipTs + w.Cfg.TsIncrement, N: uint64(3000 + w.Step), Hashes: hs})
+	w.Proposals = append(w.Proposals, pb)
+	rm := &vt.RecoveryMessage{Embedded: append([]Payload{pb}, commits...)}
+	p := vt.New(dbft.RecoveryMessageType, h, v, uint16(idx), j, rm)
+	w.Stat("byz_replay_recovery")
+	w.act("byz(%d) replays %d honest commits of (%d,%d) around its proposal %s to %d", j, len(commits), h, v, pb.Summary(), t.ID)
+	t.Receive(p)
+	a.afterCall(t)
+	b := &vt.Block{Header: headerOf(pb, a.tipHashFor(t, h)), AMEV: w.Cfg.AMEVOn(h)}
+	cm := vt.New(dbft.CommitType, h, v, uint16(idx), j, &vt.Commit{Sig: b.SignFor(j)})
+	if a.pct("replaynow", 70) {
+		t.Receive(cm)
+		a.afterCall(t)
+	} else {
+		w.send(cm, j, t.ID)
+	}
+	return true
 }
 
 // Wanted lists what node n's application was asked for at its current height and view and has not handed over yet,
